@@ -85,6 +85,13 @@ PROPS = {
     "C18": {"suites": [("ser64", 1.0)], "theorems": ["RModel.BSet.canon_ext", "RModel.Facts.r64_cookies_spec",
                                                      "RModel.Impl.decode_encode", "RModel.Impl.prefix_rejected", "RModel.Impl.decode_no_panic"],
             "modules": DEFAULT_MODULES + [FACTS, "RProofs.Properties.C05"], "owns": None},
+    "C19": {"suites": [("bsi", 1.0)], "corpus": ["corpus/bsi/F02_marshal_sign.txt"],
+            "theorems": ["RModel.Facts.bsi64ValueFitsBitCount_spec", "RModel.Facts.encodeBSI64Value_range",
+                         "RModel.Facts.encodeBSI64Value_spec", "RModel.Facts.decode_encode_BSI64"],
+            "modules": ["RProofs.Facts.Bits"], "owns": None},
+    "C20": {"suites": [("bsiq", 1.0), ("bsix", 0.5)],
+            "theorems": ["RModel.Facts.transform_monotone", "RModel.Facts.encodeBSI64Value_spec", "RModel.Facts.decode_encode_BSI64"],
+            "modules": ["RProofs.Facts.Bits"], "owns": None},
 }
 
 HOOK_COMMITS = ["ad703f4"]
